@@ -21,6 +21,8 @@ def eligible(prog):
         if any(o['op'] in ('Add', 'AddAll', 'Purge', 'QClose') for cl in prog['clients'] if cl not in binders for o in cl['ops']):
             return False
     elif len(qs) == 1:
+        # (the gate-instrumented kinds wfifo / wprio interleave other goroutines inside what the specification takes as one step:
+        # their traces are judged by the property formulas only)
         if qs[0] not in ('fifo', 'prio', 'pfifo', 'pprio'):
             return False
     elif not qs or any(k not in ('fifo', 'prio') for k in qs):
@@ -65,7 +67,7 @@ def write_case(ep, d):
                     bof[it['job']] = o['b']
                     qof[it['job']] = o.get('q', 0) + 1
     nq = max(1, len(qkinds))
-    qkinds = qkinds or ['fifo']
+    qkinds = [{'wfifo': 'fifo', 'wprio': 'prio'}.get(k, k) for k in qkinds] or ['fifo']
     for j in list(qof):
         qof[j] = min(qof[j], nq + 1) if cfg.get('nobind') else min(qof[j], nq)
     if cfg.get('nobind') and any(v > nq for v in qof.values()):
@@ -132,7 +134,7 @@ POSTCONDITION Accepted
     n = 0
     with open(tp, 'w') as f:
         for e in ep['events']:
-            if e['ev'] in ('sched',) or e['ev'].startswith('ad.'):
+            if e['ev'] in ('sched',) or e['ev'].startswith('ad.') or e.get('p') in ('?', ''):
                 continue
             st = e.get('st') or {}
             q = (st.get('q') or [[]])
